@@ -131,10 +131,26 @@ def fixed_list():
     so = dict(fo, l=0)
     base.append(("F10 (contracted core s listed in increasing order, same | f 0.25, f 0.25)", [inc, inc, fo, fo]))
     base.append(("F11 (contracted core s listed in increasing order, same | s 0.25, f 0.25)", [inc, inc, so, fo]))
+    # generalized shells padded with zeros (as cc-pVXZ files are written), a coefficient within 4e-6 of one, and an (ff|ff)
+    # quartet with two primitives per shell (the largest intermediate arrays of the run)
+    zp = {"l": 1, "center": [cg.dyadic(0.4, 10), [0, 0], cg.dyadic(-0.3, 10)], "exps": [cg.dyadic(e, 12) for e in (6.5, 1.4, 0.35)],
+          "coeffs": [[cg.dyadic(0.4, 8), [0, 0]], [cg.dyadic(0.7, 8), [0, 0]], [[0, 0], [1, 0]]], "type": "cartesian"}
+    zs = {"l": 0, "center": [[0, 0]] * 3, "exps": [cg.dyadic(e, 12) for e in (9.0, 1.1)], "coeffs": [[[1, 0], [0, 0]], [[0, 0], [1, 0]]], "type": "cartesian"}
+    zd = {"l": 2, "center": [[0, 0], cg.dyadic(0.6, 10), [0, 0]], "exps": [cg.dyadic(0.9, 12)], "coeffs": [[[1, 0]]], "type": "spherical"}
+    base.append(("F12 (zero-padded generalized shells)", [zs, zp, zd, zp]))
+    base.append(("F13 (zero-padded generalized shells, other order)", [zp, zp, zs, zs]))
+    nu = lambda l, e, c: {"l": l, "center": c, "exps": [cg.dyadic(e, 12)], "coeffs": [[[2 ** 18 + 1, -18]]], "type": "cartesian"}  # noqa: E731
+    base.append(("F14 (single primitives with coefficient 1 + 2^-18)", [nu(0, 1.3, [[0, 0]] * 3), nu(1, 0.8, [cg.dyadic(0.5, 8), [0, 0], [0, 0]]),
+                                                                       nu(0, 2.1, [[0, 0], cg.dyadic(-0.7, 8), [0, 0]]), nu(2, 0.6, [[0, 0]] * 3)]))
+    f2 = lambda c: {"l": 3, "center": c, "exps": [cg.dyadic(1.7, 12), cg.dyadic(0.45, 12)], "coeffs": [[cg.dyadic(0.6, 8)], [cg.dyadic(0.5, 8)]],  # noqa: E731
+                    "type": "cartesian"}
+    base.append(("F15 (ff|ff) with two primitives per shell", [f2([[0, 0]] * 3), f2([cg.dyadic(0.9, 8), [0, 0], cg.dyadic(0.3, 8)]),
+                                                             f2([[0, 0], cg.dyadic(-0.8, 8), [0, 0]]), f2([cg.dyadic(0.2, 8), cg.dyadic(0.4, 8), cg.dyadic(-0.6, 8)])]))
     out = []
     for name, shs in base:
         out.append({"kind": "fixed", "name": name, "shells": shs})
-        out.append({"kind": "fixed", "name": name + " bra<->ket", "shells": [shs[2], shs[3], shs[0], shs[1]]})
+        if not name.startswith("F15"):
+            out.append({"kind": "fixed", "name": name + " bra<->ket", "shells": [shs[2], shs[3], shs[0], shs[1]]})
     return out
 
 
